@@ -430,6 +430,9 @@ pub enum Fixed {
     /// byte limit L: handlers for A (size a) and B are running, C waits; B finishes and leaves exactly `a` bytes in
     /// flight: C must start although A is still running whenever a <= L
     ByteBoundary { role: Role, limit: u16, a: u16 },
+    /// v5: a peer that repeats a PUBREL while the first is being handled must not gain Receive Maximum slots:
+    /// with `rm` publishes really in flight the next one is still refused with 0x93
+    DupRelThenExceed { role: Role, rm: u16 },
 }
 
 fn ffail(role: Role, rule: &str, detail: String) -> Failure {
@@ -505,6 +508,62 @@ pub async fn run_fixed(fx: Fixed) -> Result<CaseInfo, Failure> {
             eut.finish().await;
             Ok(CaseInfo::nontrivial(&fx).label("duplicate-id-then-full-window"))
         }
+        Fixed::DupRelThenExceed { role, rm } => {
+            let mut cfg = Cfg::default();
+            cfg.v5.max_receive = rm;
+            cfg.v5.connect.receive_max = Some(rm);
+            let eut = Eut::start(role, &cfg).await;
+            eut.handshake(&cfg).await;
+            let app = eut.app().clone();
+            let publish = |qos: u8, pid: u16| P5::Publish(Box::new(s5::Publish5 { qos, pid: Some(pid), topic: "t/a".into(), payload_len: 1, ..Default::default() }));
+            // QoS 2 id 1 handled at once -> PUBREC; rm-1 QoS 1 publishes stay in their handlers
+            eut.peer_send(&publish(2, 1), &[1]);
+            eut.settle().await;
+            app.default_open.set(false);
+            for i in 0..rm - 1 {
+                eut.peer_send(&publish(1, 10 + i), &[1]);
+            }
+            eut.settle().await;
+            if app.pub_enters().len() != usize::from(rm) {
+                return Err(ffail(role, "harness-scenario", format!("{} handlers entered, expected {rm}; stops {:?}", app.pub_enters().len(), app.stops())));
+            }
+            // PUBREL twice while the protocol handler of the first is parked
+            eut.peer_send(&P5::PubRel(s5::Ack5 { pid: 1, ..Default::default() }), &[]);
+            eut.peer_send(&P5::PubRel(s5::Ack5 { pid: 1, ..Default::default() }), &[]);
+            eut.settle().await;
+            // release the protocol handlers only
+            let ctl: Vec<u32> = app.events().iter().filter_map(|e| if let Ev::CtlEnter { seq, .. } = e { Some(*seq) } else { None }).collect();
+            for seq in 0..4u32 {
+                app.open(G_CTL, seq);
+            }
+            let _ = ctl;
+            eut.settle().await;
+            if !app.stops().is_empty() {
+                // the repeated PUBREL was treated as a violation: nothing more to probe
+                eut.finish().await;
+                return Ok(CaseInfo::nontrivial(&fx).label("duplicate-pubrel-refused"));
+            }
+            // really in flight now: rm-1 publishes.  One more fills the window, the one after it exceeds it.
+            let before = app.pub_enters().len();
+            eut.peer_send(&publish(1, 50), &[1]);
+            eut.settle().await;
+            if app.pub_enters().len() != before + 1 || !app.stops().is_empty() {
+                return Err(ffail(role, "conforming-peer-refused", format!("publish within Receive Maximum {rm} after the QoS 2 exchange completed was not handled; stops {:?}", app.stops())));
+            }
+            eut.peer_send(&publish(1, 51), &[1]);
+            eut.settle().await;
+            let (pk, _) = eut.packets();
+            let code = pk.iter().find_map(|w| if let P5::Disconnect(d) = &w.pkt { Some(d.reason) } else { None });
+            if app.pub_enters().len() != before + 1 || code != Some(0x93) {
+                return Err(Failure::new(
+                    "surplus-publish-handled",
+                    format!("C12/{}/surplus-publish-handled/after-duplicate-pubrel", role.name()),
+                    format!("Receive Maximum {rm}: {rm} QoS 1 publishes are inside handlers and one more arrived: handled {} (expected {}), DISCONNECT {code:?} (expected 0x93); a PUBREL had been sent twice while its handler ran", app.pub_enters().len() - before, 1),
+                ));
+            }
+            eut.finish().await;
+            Ok(CaseInfo::nontrivial(&fx).label("duplicate-pubrel-then-exceed"))
+        }
         Fixed::ByteBoundary { role, limit, a } => {
             let mut cfg = Cfg::default();
             cfg.v3.max_receive = 0;
@@ -564,6 +623,9 @@ pub fn fixed_cases() -> Vec<Fixed> {
                 out.push(Fixed::DupThenFull { role, rm, dups });
             }
         }
+    }
+    for rm in 2..5u16 {
+        out.push(Fixed::DupRelThenExceed { role: Role::V5Server, rm });
     }
     for role in [Role::V3Server, Role::V5Server] {
         for limit in [60u16, 100, 200] {
